@@ -770,7 +770,8 @@ def _viewgrid(shard, ctx):
                         for xa in (False, True):
                             for xb in (False, True):
                                 case = {'cfg': cfg, 'base': base, 'basev': 1 if kind == 'BTree' else None,
-                                        'ops': [['minimize'], ['view', meths[(n // 3) % len(meths)], a, b, xa, xb, [0, -1]]]}
+                                        'ops': [['minimize'], ['view', meths[(n // 3) % len(meths)], a, b, xa, xb,
+                                                               [0, -1, 0, -2, 1]]]}     # forwards and backwards
                                 n += 1
                                 if not ctx.run_case(case, run_case):
                                     return
